@@ -242,9 +242,14 @@ def check_case(rec, name, make_inner, x, cps, stat_name, lo, hi, rep, inp, prefi
     if prefit is not None:
         inner.fit(prefit)
     before = fingerprint(inner)
-    anom = StatThresholdAnomaliser(inner, stat=stat, stat_lower=lo, stat_upper=hi)
     X = represent(x, rep)
     desc = f"StatThresholdAnomaliser({name}, {stat_name}, {lo}, {hi}) on x={np.asarray(x).tolist()} passed as {rep}, changepoints {list(cps)}"
+    try:
+        anom = StatThresholdAnomaliser(inner, stat=stat, stat_lower=lo, stat_upper=hi)
+    except Exception as e:                                                      # noqa: BLE001  (every case has lower <= upper: a legal configuration)
+        rec.violation(f"StatThresholdAnomaliser.__init__:raises:{type(e).__name__}", f"{desc}: the constructor raised {type(e).__name__}: {str(e)[:160]} "
+                      f"for the legal bounds lower={lo} <= upper={hi}; the statement expects the anomalies {want}", "C17.flags", inp)
+        return True, bool(want)
     try:
         anom.fit(X)
         got = read_intervals(anom.predict(X))
